@@ -248,7 +248,7 @@ fn base_expressions() -> Vec<String> {
     v
 }
 
-const EDIT_SIGMA: &str = "0123456789*/-,abcdefghijklmnopqrstuvwxyz ";
+const EDIT_SIGMA: &str = "0123456789*/-,abcdefghijklmnopqrstuvwxyz +.#?_L";
 
 fn mutants(base: &str) -> Vec<String> {
     let c: Vec<char> = base.chars().collect();
@@ -302,7 +302,7 @@ pub fn run(ctx: &Ctx) -> i32 {
     all.sort();
     all.dedup();
     let thorough = ctx.thorough;
-    rep.sweep("mutants: every single-character deletion / insertion / substitution of the base expressions", all.len() as u64, "alphabet 0-9 * / - , a-z space", |i, acc| {
+    rep.sweep("mutants: every single-character deletion / insertion / substitution of the base expressions", all.len() as u64, "alphabet 0-9 * / - , a-z space + . # ? _ L", |i, acc| {
         case_expr(&all[i as usize], thorough || i % 4 == 0, acc);
         if i % 50_021 == 0 {
             acc.sample(json!({"expr": all[i as usize], "reference": format!("{:?}", rc::parse(&all[i as usize])).chars().take(60).collect::<String>()}));
